@@ -758,6 +758,15 @@ def rule_subspaces_from_indices(rep: Report, repo: Repo):
     f = repo.find("block_diagonalization::_subspaces_from_indices", R)
     loc = lambda n: repo.loc("block_diagonalization", n)
     from .resolve import env_at, resolved
+    # an unstable sort of the labels scrambles the states inside a block: np.argsort / np.sort / ndarray.sort default to quicksort
+    for c_ in ast.walk(f):
+        if isinstance(c_, ast.Call) and (call_name(c_) in ("np.argsort", "np.lexsort") or (isinstance(c_.func, ast.Attribute) and c_.func.attr == "argsort")):
+            kind = {k_.arg: norm(k_.value) for k_ in c_.keywords}.get("kind")
+            if call_name(c_) != "np.lexsort" and kind not in ("'stable'", "'mergesort'"):
+                rep.fail(R, f"_subspaces_from_indices orders the states with `{norm(c_)[:60]}`",
+                         "numpy's default sort is not stable: states that carry the same block label come out in arbitrary order, so block b is no "
+                         "longer spanned by the identity columns {k : indices[k] == b} in increasing k (kind='stable' keeps the order)", loc(c_))
+                return
     rets = [n for n in own_nodes(f) if isinstance(n, ast.Return) and n.value is not None]
     # the non-symbolic return gives the bases; the symbolic one converts the same bases to dense arrays
     # the symbolic return converts the bases to dense arrays (`.toarray()`); the other one returns the bases themselves
